@@ -166,6 +166,36 @@ Section FF.
          eapply url_validate_idem; eassumption.
   Qed.
 
+  (* ---- idempotence outside the two open findings: F56 (start directory + string option) and F13 ---- *)
+  Lemma sopts_plain_eq : forall o, sopts_plain o = true -> o = sopts0.
+  Proof.
+    intros [mn mx rx ch ca st] H. unfold sopts_plain in H.
+    destruct mn, mx, rx, ch, ca, st; try discriminate. reflexivity.
+  Qed.
+
+  Theorem ff_validate_idem_partial : forall f x v,
+    known_F56 f = false -> ff_F13 f = false -> abspath_absolute -> fs_isabs F [] = Some false ->
+    ff_validate orc F U f x = Ok v -> ff_validate orc F U f v = Ok v.
+  Proof.
+    intros f x v H56 H13 Habs Hemp H. apply (ff_validate_idem f x v Habs H).
+    destruct f as [req o m sd|req o]; cbn [ff_stable ff_F13] in *; [|exact H13].
+    destruct v as [| | | |p| | | | | |]; try exact I.
+    assert (Hf : file_validate orc F req o m sd x = Ok (PStr p)).
+    { destruct x; cbn [ff_validate] in H; try exact H. destruct req; discriminate. }
+    clear H.
+    apply file_validate_exact in Hf as [s [S [[Es E]|[Hs (p' & P & _ & _ & E)]]]]; injection E as ->.
+    - subst s. eapply str_validate_idem; eassumption.
+    - destruct (sopts_plain o) eqn:Pl.
+      + apply sopts_plain_eq in Pl. subst o. rewrite str_validate_sopts0.
+        replace (req && is_nil p') with false; [reflexivity|]. symmetry. apply andb_false_iff. right. apply is_nil_false.
+        destruct P as [ab [A [[_ E]|[_ (d & j & e & _ & _ & _ & _ & P)]]]]; [now subst|].
+        intros ->. pose proof (Habs _ _ P) as Q. rewrite Hemp in Q. discriminate.
+      + assert (Hp : p' = s).
+        { destruct P as [ab [_ [[_ E]|[_ (d & j & e & Esd & Hd & _)]]]]; [exact E|].
+          exfalso. subst sd. cbn [known_F56] in H56. rewrite Pl in H56. destruct d; [congruence|discriminate]. }
+        subst p'. eapply str_validate_idem; eassumption.
+  Qed.
+
   (* the on-disk form is the value itself: to_python (to_basic v) = v, so the round trip is idempotence *)
   Theorem ff_roundtrip : forall f x v,
     abspath_absolute -> ff_validate orc F U f x = Ok v -> ff_stable f v ->
